@@ -77,8 +77,9 @@ class Fn:
 class Repo:
     """Parsed package. `overrides` maps module name -> source text (used by self-validation on in-memory variants)."""
 
-    def __init__(self, root=None, overrides=None):
+    def __init__(self, root=None, overrides=None, normalise=True):
         self.root = root or REPO
+        self.renamed = []
         self.src_dir = os.path.join(self.root, SRC_REL)
         self.files, self.src, self.trees = {}, {}, {}
         self.funcs, self.classes = {}, {}
@@ -99,6 +100,9 @@ class Repo:
                 self.trees[m] = ast.parse(text, filename=p)
             except SyntaxError as e:
                 raise AnalysisError('module %s does not parse: %s' % (m, e))
+            if normalise:
+                from . import normal
+                normal.normalise_module(self.trees[m], m, use_reference=(normalise != 'noref'), stats=self.renamed)
         for m, t in self.trees.items():
             self._index(m, t)
         self._callgraph = None
